@@ -175,6 +175,10 @@ pub fn child_reopen(rest: &[String]) -> ! {
     let r = guarded(std::panic::AssertUnwindSafe(|| -> Result<String, String> {
         let sim = Sim::open(root, &cfg)?;
         let mut out = String::new();
+        // known finding D-9: recover() cannot order files that overlap in key and timestamp range
+        if sim.dump().map(|d| crate::c01::d9_trigger(&d)).unwrap_or(false) {
+            eprintln!("D9TRIGGER");
+        }
         for k in ALPHABET[..nkeys].iter() {
             match sim.get(k)? {
                 Some(v) => out.push_str(&format!("{}={}\n", hex(k), hex(&v))),
@@ -536,20 +540,21 @@ pub fn run(args: &Args) {
                     continue;
                 }
                 let out = std::process::Command::new(&exe).args(["C02reopen", &img, &cfg_arg(&cfg), &nkeys.to_string()]).output();
-                let (code, text) = match out {
-                    Ok(o) => (o.status.code(), String::from_utf8_lossy(&o.stdout).to_string()),
-                    Err(e) => (None, format!("spawn: {}", e)),
+                let (code, text, d9) = match out {
+                    Ok(o) => (o.status.code(), String::from_utf8_lossy(&o.stdout).to_string(), String::from_utf8_lossy(&o.stderr).contains("D9TRIGGER")),
+                    Err(e) => (None, format!("spawn: {}", e), false),
                 };
+                let d9class = "reopen-with-key-and-timestamp-overlapping-files".to_string();
                 let want_a = expected_state(&ops, done, nkeys);
                 let want_b = inflight.map(|k| expected_state(&ops, k + 1, nkeys));
                 let tag = format!("h{} crash-before-call {} ({}) model {} acked {} inflight {:?}", h, p, next_call, if model_b { "b" } else { "a" }, done, inflight);
                 let verdict = if code != Some(0) {
-                    Verdict::Fail { class: "reopen-fails-after-crash".into(), detail: format!("{} -> exit {:?} {}", tag, code, text.lines().last().unwrap_or("").chars().take(300).collect::<String>()) }
+                    Verdict::Fail { class: if d9 { d9class.clone() } else { "reopen-fails-after-crash".into() }, detail: format!("{} -> exit {:?} {}", tag, code, text.lines().last().unwrap_or("").chars().take(300).collect::<String>()) }
                 } else if text == want_a || Some(&text) == want_b.as_ref() {
                     Verdict::Ok
                 } else {
                     let diff = text.lines().zip(want_a.lines()).find(|(a, b)| a != b).map(|(a, b)| format!("got `{}` want `{}`", a.chars().take(120).collect::<String>(), b.chars().take(120).collect::<String>())).unwrap_or_default();
-                    Verdict::Fail { class: "acked-write-lost-or-partial-or-invented".into(), detail: format!("{} {}", tag, diff) }
+                    Verdict::Fail { class: if d9 { d9class.clone() } else { "acked-write-lost-or-partial-or-invented".into() }, detail: format!("{} {}", tag, diff) }
                 };
                 rec.count(if model_b { "images.model_b" } else { "images.model_a" });
                 if inflight.is_some() {
